@@ -14,6 +14,11 @@ CHECKS = {
                 text="the constructor's stored checkpoint is proved to be the loop-head state sigma(k) of the uninterrupted run (same geometry spec function), "
                      "the loop's entry obligations are proved from it; equal states give equal continuations",
                 note=TRUST),
+    "C01": dict(level="proof", technique="contract-based deductive verification of ModeWrapper.__getitem__ against a table specification (quantified loop invariants, AST->SMT) + bounded enumeration of mode strings on the real stacks",
+                text="for a well-formed loader table every output position holds its owner entry's value for the normalised index (fused groups delivered in mode order from one joint load), "
+                     "bare value vs tuple, context appended iff requested, None unless propagated; helpers on item sequences and the TorchWrapper component dispatch; "
+                     "table construction by __init__ and slice/list/iteration forms are bounded only",
+                note=TRUST + "; the table well-formedness precondition is established by the bounded stand-in, not by proof"),
     "C02": dict(level="proof", technique="contract-based deductive verification, structural induction through layer contracts (AST->SMT, z3+cvc5); frame check of constructibility; bounded nested stacks",
                 text="every layer (KDSubset, KDConcatDataset, KDWrapper, getall helpers) is verified once against the abstract contract of the layer below and "
                      "re-establishes it with its index map composed in (negative indices, bisect over cumulative sizes incl. zero-length parts, balanced round-robin, "
